@@ -389,3 +389,14 @@ def run(cx):
         cl = [(p, b.loc(c.bb)) for p, b in prog.bodies.items() if b.crate in ("anemo", "anemo_tower")
               for c in b.calls() if not b.is_cleanup(c.bb) and name_matches(c.fn, "Clone::clone") and c.ga and c.ga[0] == "http::extensions::Extensions"]
         ob.require(not cl, "ext-clone", f"Extensions map cloned at {cl[:3]}", cl[0][0] if cl else "")
+
+    with cx.ob("C01.11", "R-MUSTPASS", "a dial that names an identity is reported established only after the pinned handshake: the connect API always sends the ConnectRequest (as C03.10) and the manager's mailbox arm always dials it (C08.2 re-evaluated)") as ob:
+        from .c03 import check_connect_always_dials
+        check_connect_always_dials(ob, cx)
+        from . import c08
+        sub = cx.__class__("C01", prog, cx.tier, cx.config, cx.tree, repo=cx.repo)
+        c08.run(sub)
+        w = [x for x in sub.obs if x.oid == "C08.2"]
+        ob.count(sum(x.evals for x in w))
+        bad = [v for x in w for v in x.violations if "loop/mailbox" in v.key]
+        ob.require(len(w) == 1 and not bad, "pinned-dial/always-handshakes", "a pinned dial can be answered without the handshake that proves the key: " + "; ".join(str(v.msg) for v in bad)[:300], "anemo::network::connection_manager::ConnectionManager::start")
